@@ -9,4 +9,5 @@ mkdir -p .cache/run evidence
 (cd coq && ./extract/build.sh)
 (cd harness && RUSTFLAGS="--cfg wellen_verif" CARGO_TARGET_DIR=/verif/.cache/target cargo build --offline 2>&1 | tail -2)
 (cd harness && RUSTFLAGS="--cfg wellen_verif" CARGO_TARGET_DIR=/verif/.cache/target cargo build --offline --release 2>&1 | tail -2)
+(cd /repo && CARGO_TARGET_DIR=/verif/.cache/target-py cargo build -p pywellen --offline 2>&1 | tail -1)
 echo setup done
